@@ -818,4 +818,21 @@ example : sensorReadOf intendedSensorReads 0 "sdr showall" 0x01 1 0x51 = some (1
 example : prefixFree [⟨ofString "bmc", [ofString "bmc"], 0, []⟩,
     ⟨ofString "bmc info", [ofString "bmc", ofString "info"], 0, []⟩] = false := by decide +kernel
 
+/-- **`-b` for the `main()` read today**: the translator found the bridging statement of repair ac26ccf
+(`Gen.Cli.shape.bridge`, regenerated on every run); with a target address and a channel given and no explicit
+routing the request reaches controller `t` over channel `b`.  A tree without the statement stops this theorem from
+building (and the real run reports `C20:option:-b`). -/
+theorem channel_option_takes_effect_today (vs : List Val) (t b : Int)
+    (hr : getv vs Gen.Cli.shape.vRouting = .none) (hc : getv vs 4 = .int b)
+    (ht : getv vs Gen.Cli.shape.vTarget = .int t) :
+    destinationOfRouting (bridgedRouting Gen.Cli.shape vs) = some (Spec.Cli.destinationOf t (some b)) :=
+  channel_option_takes_effect Gen.Cli.shape vs 4 129 32 32 t b rfl hr hc ht
+
+/-- **aardvark options for the `Aardvark.open()` read today** (guards `is not None`, repair a4d225d): every
+combination of pullups / power / fastmode in {absent, on, off} is written to the adapter as given -/
+theorem aardvark_options_take_effect_today (p w f : Option Bool) :
+    (aardvarkOpenWrites Gen.Cli.aardvarkGuards p w f).map settingOf =
+      Spec.Cli.adapterSettings p w (some (f.getD false)) :=
+  aardvark_options_take_effect Gen.Cli.aardvarkGuards rfl rfl p w f
+
 end PyIpmi.Props.C20
